@@ -27,8 +27,10 @@ def random_history(rng, max_obj=6, max_ops=40, malformed=False):
             ops.append("collect")
         elif r < 0.86:
             ops.append(f"unedge {a} {b}")
-        elif r < 0.93:
+        elif r < 0.90:
             ops.append(f"updrop {a}")
+        elif r < 0.95:
+            ops.append(f"deref {a} {b}")
         elif malformed:
             ops.append(rng.choice([f"tedge {a} {b}", f"oedge {a} {b}"]))
         else:
